@@ -710,6 +710,56 @@ def shortcut_ir():
     return table
 
 
+# ---- (k) attribute assignment: XMLElement.__setattr__ dispatch, _set_attributes, _check_attribute (exact statement shapes; any edit fails closed)
+def attr_set_ir():
+    t = parse('musicxml/xmlelement/xmlelement.py')
+    sa = find_func(t, 'XMLElement', '_set_attributes')
+    ca = find_func(t, 'XMLElement', '_check_attribute')
+    st_ = find_func(t, 'XMLElement', '__setattr__')
+    if sa is None or ca is None or st_ is None:
+        raise Fail('attribute setters not found')
+
+    def body(f):
+        return [ast.unparse(x) for x in f.body if not (isinstance(x, ast.Expr) and isinstance(x.value, ast.Constant))]
+    b = body(sa)
+    if len(b) != 7:
+        raise Fail('_set_attributes: %d statements' % len(b))
+    path_common, none_path, value_path = [], [], []
+    if b[0] != 'if val is None:\n    return':
+        raise Fail('_set_attributes[0]')
+    if not (b[1].startswith('if self.TYPE.get_xsd_tree().is_simple_type:\n    if val:\n        raise XSDWrongAttribute(') and b[1].endswith('elif not isinstance(val, dict):\n    raise TypeError')):
+        raise Fail('_set_attributes[1]')
+    path_common += ['Raise', 'Raise']
+    if b[2] != 'new_attributes = replace_key_underline_with_hyphen(dict_=val)' or b[3] != 'none_values_dict = {k: v for k, v in new_attributes.items() if v is None}':
+        raise Fail('_set_attributes[2-3]')
+    path_common += ['Read', 'Read']
+    if b[4] != 'for key in none_values_dict:\n    new_attributes.pop(key)\n    try:\n        self.attributes.pop(key)\n    except KeyError:\n        pass':
+        raise Fail('_set_attributes[4]')
+    if b[5] != 'for key in new_attributes:\n    self._check_attribute(key, new_attributes[key])':
+        raise Fail('_set_attributes[5]')
+    if b[6] != 'self._attributes = {**self._attributes, **new_attributes}':
+        raise Fail('_set_attributes[6]')
+    none_path = path_common + ['Store', 'Store']          # a key whose value is None: popped, nothing to check, merge of an empty dict
+    value_path = path_common + ['Validate', 'Store']      # a key with a value: checked, then stored by the merge
+    many_path = path_common + ['Store', 'Validate', 'Store']
+    c = body(ca)
+    if len(c) != 4 or c[0] != 'attributes = self.TYPE.get_xsd_attributes()' or not c[2].startswith('if name not in [attribute.name for attribute in self.TYPE.get_xsd_attributes()]:\n    raise XSDWrongAttribute(') \
+            or c[3] != 'for attribute in attributes:\n    if attribute.name == name:\n        return attribute(value)':
+        raise Fail('_check_attribute changed')
+    for n in ast.walk(ca):
+        if isinstance(n, (ast.Assign, ast.AugAssign)):
+            for tg in (n.targets if isinstance(n, ast.Assign) else [n.target]):
+                if not isinstance(tg, ast.Name):
+                    raise Fail('_check_attribute stores')
+    d = body(st_)
+    exp = ("if key[0] == '_' or key in self._PROPERTIES:\n    super().__setattr__(key, value)\nelif key.startswith('xml_'):\n    try:\n        self._convert_attribute_to_child(name=key, value=value)\n"
+           "    except NameError:\n        raise AttributeError(self._get_attributes_error_message(key))\nelse:\n    try:\n        self._set_attributes({key: value})\n    except XSDWrongAttribute:\n"
+           "        raise AttributeError(self._get_attributes_error_message(key))")
+    if d != [exp]:
+        raise Fail('__setattr__ changed')
+    return {'none_path': none_path, 'value_path': value_path, 'many_path': many_path, 'dispatch': ['PrivateOrProperty', 'ChildShortcut', 'SingleAttribute']}
+
+
 def cq(s):
     return q(str(s))
 
@@ -844,6 +894,17 @@ def main():
         side['serialise'] = 'FAILED: ' + str(ex)
         o.append('Definition tr_serialise_ok := false. (* %s *)' % str(ex).replace('*', ' ').replace('\n', ' '))
         o.append('Definition serialise_stores : list string := [].')
+    try:
+        ai = attr_set_ir()
+        side['attr_set'] = ai
+        o.append('Definition tr_attr_set_ok := true.')
+        for k in ('none_path', 'value_path', 'many_path'):
+            o.append('Definition attr_%s : list eeff := [%s].' % (k, '; '.join('X' + e for e in ai[k])))
+    except Fail as ex:
+        side['attr_set'] = 'FAILED: ' + str(ex)
+        o.append('Definition tr_attr_set_ok := false. (* %s *)' % str(ex).replace('*', ' ').replace('\n', ' '))
+        for k in ('none_path', 'value_path', 'many_path'):
+            o.append('Definition attr_%s : list eeff := [].' % k)
     o.append('Inductive sc_action := ScReplace | ScAddGiven | ScRemove | ScSetValue | ScAddNew | ScNothing.')
     o.append('Inductive sc_kind := ScInstance | ScIsNone | ScOther.')
     try:
